@@ -19,7 +19,9 @@ ID = "C16"
 WORKERS = {"quick": 8, "thorough": 16}
 RULE = (
     "case = {n hosts (2-3) on one switch, time-out T (3-5, written to every UserSessionManager object), power "
-    "duration (0/1), optional second account per node declared in the scenario, op list}; ops = add-user / disable-user / change-password / local command with credentials / "
+    "duration (0/1), optional second account per node declared in the scenario (its password may carry surrounding "
+    "whitespace), op list}; credentials are exact, never-valid, or near-misses of the stored ones (leading/trailing "
+    "space, tab, newline, case, prefix, suffix, stripped, empty; near-miss user names); ops = add-user / disable-user / change-password / local command with credentials / "
     "remote login / remote command (creates a uniquely named folder on the target) / failing remote command (deletes a missing folder) / remote logoff between any ordered "
     "pair of hosts, tick x k (1-6), terminal stop/start, node shutdown/startup; requests are formed by the agent "
     "actions' form_request. Exhaustive: every sequence of fixed depth over a reduced alphabet after each of four "
@@ -48,7 +50,21 @@ ASSUMPTIONS = [
 MAX_SESSIONS = 3
 USERS = ["admin", "bob"]
 PASSWORDS = ["admin", "admin1", "admin12"]  # each a prefix of the next: substring / prefix comparisons are caught
+WS_PASSWORDS = ["two words ", " lead"]  # stored passwords that themselves carry surrounding whitespace
 WRONG = ["zz", "Admin1", ""]  # never a valid password
+# near-misses of the password the model currently holds for the (nearest) account, resolved in run_case; the model then
+# compares exact strings, so e.g. "@upper" of a password without letters is simply the right password
+NEAR_PW = ["@cur+sp", "@sp+cur", "@cur+tab", "@nl+cur", "@upper", "@prefix", "@suffix", "@strip"]
+NEAR_USERS = [" admin", "admin ", "Admin", "adm", "admin\t", "bob ", " bob"]  # never an account name unless added
+
+
+def bob_entry(b):
+    """case['bob'][i]: None = no second account, bool = is_admin (password admin1), [is_admin, password]."""
+    if b is None:
+        return None
+    if isinstance(b, (list, tuple)):
+        return bool(b[0]), str(b[1])
+    return bool(b), "admin1"
 
 # ids of open findings whose exclusion-by-construction this module implements
 F_PWCHANGE = ("C16-pwchange-other-sessions-survive", "C16-pwchange-command-still-runs")  # one root cause
@@ -68,8 +84,9 @@ def scenario(n: int, dur: int, bob: List) -> Dict:
     links = []
     for i in range(n):
         kw = {}
-        if i < len(bob) and bob[i] is not None:  # declared in the scenario's `users:` list of the node
-            kw["users"] = [{"username": "bob", "password": "admin1", "is_admin": bool(bob[i])}]
+        b = bob_entry(bob[i]) if i < len(bob) else None
+        if b is not None:  # declared in the scenario's `users:` list of the node
+            kw["users"] = [{"username": "bob", "password": b[1], "is_admin": b[0]}]
         nodes.append(computer(host(i), ip_of(i), start_up_duration=dur, shut_down_duration=dur, **kw))
         links.append(link("sw", i + 1, host(i), 1))
     return base_cfg(nodes, links, max_len=1000)
@@ -158,8 +175,9 @@ class Model:
             {"admin": {"pw": "admin", "disabled": False, "admin": True}} for _ in range(n)
         ]
         for i in range(n):
-            if i < len(bob) and bob[i] is not None:
-                self.users[i]["bob"] = {"pw": "admin1", "disabled": False, "admin": bool(bob[i])}
+            b = bob_entry(bob[i]) if i < len(bob) else None
+            if b is not None:
+                self.users[i]["bob"] = {"pw": b[1], "disabled": False, "admin": b[0]}
         self.sess: List[Dict[str, Sess]] = [{} for _ in range(n)]
         self.now = 0
 
@@ -292,10 +310,26 @@ def run_case(case: Dict) -> CaseResult:
         return s
 
     def resolve_pw(i: int, user: str, pw: str) -> str:
-        if pw == "@cur":
-            a = m.users[i].get(user)
-            return a["pw"] if a else "admin"
-        return pw
+        """'@...' tokens are derived from the password the model holds for the account (for a near-miss user name: for
+        the account it is a near-miss of), so the case stays a plain value and shrinks well."""
+        if not pw.startswith("@"):
+            return pw
+        us = m.users[i]
+        a = us.get(user) or us.get(user.strip()) or us.get(user.strip().lower())
+        if a is None:
+            a = next((v for k_, v in us.items() if k_.startswith(user.strip().lower()) and user.strip()), None)
+        cur = a["pw"] if a else "admin"
+        return {
+            "@cur": cur,
+            "@cur+sp": cur + " ",
+            "@sp+cur": " " + cur,
+            "@cur+tab": cur + "\t",
+            "@nl+cur": "\n" + cur,
+            "@upper": cur.upper() if cur.upper() != cur else cur.lower(),
+            "@prefix": cur[:-1],
+            "@suffix": cur + "x",
+            "@strip": cur.strip(),
+        }[pw]
 
     try:
         game.pre_timestep()  # requests are applied inside a step, as agent actions are
@@ -620,9 +654,9 @@ def op_strategy(n: int):
     node = st.integers(0, n - 1)
     pairs = [(a, b) for a in range(n) for b in range(n) if a != b]
     pair = st.sampled_from([(0, 1)] * 3 + pairs)  # most traffic between one client and one target, so sessions pile up
-    user = st.sampled_from(["admin", "admin", "bob"])
-    pw = st.sampled_from(["@cur", "@cur", "@cur", "@cur"] + WRONG + PASSWORDS)
-    newpw = st.sampled_from(PASSWORDS)
+    user = st.sampled_from(["admin"] * 6 + ["bob"] * 3 + NEAR_USERS)
+    pw = st.sampled_from(["@cur"] * 8 + NEAR_PW + WRONG + PASSWORDS + WS_PASSWORDS)
+    newpw = st.sampled_from(PASSWORDS + PASSWORDS + WS_PASSWORDS)
     return st.one_of(
         st.tuples(st.just("login"), pair, user, pw).map(lambda x: ["login", x[1][0], x[1][1], x[2], x[3]]),
         st.tuples(st.just("login"), pair, user, pw).map(lambda x: ["login", x[1][0], x[1][1], x[2], x[3]]),
@@ -632,7 +666,8 @@ def op_strategy(n: int):
         st.tuples(st.just("logoff"), pair).map(lambda x: ["logoff", x[1][0], x[1][1]]),
         st.tuples(st.just("tick"), st.sampled_from([1, 1, 2, 3, 4, 6])).map(list),
         st.tuples(st.just("chpw"), node, user, pw, newpw).map(list),
-        st.tuples(st.just("add_user"), node, st.sampled_from(USERS), newpw, st.booleans()).map(list),
+        st.tuples(st.just("add_user"), node, st.sampled_from(USERS + USERS + ["bob ", " admin"]), newpw,
+                  st.booleans()).map(list),
         st.tuples(st.just("disable"), node, user).map(list),
         st.tuples(st.just("local"), node, user, pw).map(list),
         st.tuples(st.just("term"), node, st.sampled_from(["stop", "start"])).map(list),
@@ -646,7 +681,8 @@ def case_strategy(draw, max_len: int, excl: List[str]):
     T = draw(st.integers(3, 5))
     dur = draw(st.sampled_from([0, 0, 1]))
     size = draw(st.sampled_from([4, 8, 12, 16, 20, 25, max_len]))
-    bob = draw(st.lists(st.sampled_from([None, None, False, True]), min_size=n, max_size=n))
+    bob = draw(st.lists(st.sampled_from([None, None, False, True, [False, "two words "], [True, " lead"]]),
+                        min_size=n, max_size=n))
     ops = draw(st.lists(op_strategy(n), min_size=max(1, size - 3), max_size=size))
     return {"n": n, "T": T, "dur": dur, "bob": bob, "ops": ops, "excl": list(excl)}
 
@@ -750,6 +786,33 @@ BUSY_ALPHABET = [
 ]
 
 
+# credentials block: bob is declared on h1 with a password that ends in a space; every login is a near-miss (or exact)
+CRED_BOB = [None, [False, "two words "]]
+CRED_ALPHABET = [
+    ["login", 0, 1, "admin", "@cur"],
+    ["login", 0, 1, "admin", "@cur+sp"],
+    ["login", 0, 1, "admin", "@sp+cur"],
+    ["login", 0, 1, "admin", "@cur+tab"],
+    ["login", 0, 1, "admin", "@upper"],
+    ["login", 0, 1, "admin", "@prefix"],
+    ["login", 0, 1, "admin", "@suffix"],
+    ["login", 0, 1, "admin", ""],
+    ["login", 0, 1, " admin", "@cur"],
+    ["login", 0, 1, "admin ", "@cur"],
+    ["login", 0, 1, "Admin", "@cur"],
+    ["login", 0, 1, "bob", "@cur"],  # stored password 'two words ': must succeed
+    ["login", 0, 1, "bob", "@strip"],  # 'two words': must be refused
+    ["local", 1, "bob", "@cur"],
+    ["local", 1, "bob", "@strip"],
+    ["local", 1, "admin", "@cur+sp"],
+    ["local", 1, "admin ", "@cur"],
+    ["chpw", 1, "admin", "@cur", " lead"],  # from now on the stored admin password starts with a space
+    ["chpw", 1, "admin", "@cur+sp", "admin1"],
+    ["add_user", 1, "bob ", "admin1", False],  # a second account whose NAME differs from bob by a trailing space
+    ["cmd", 0, 1],
+]
+
+
 def exhaustive_plan(tier: str):
     alphabet = EXH_ALPHABET if tier == "quick" else EXH_ALPHABET + EXH_EXTRA
     depth = 3 if tier == "quick" else 4
@@ -764,6 +827,8 @@ def exhaustive_cases(tier: str, excl: List[str]):
                    "excl": list(excl)}
     for seq in itertools.product(ACC_ALPHABET, repeat=3 if tier == "quick" else 4):
         yield {"n": 2, "T": 3, "dur": 0, "bob": [None, False], "ops": [list(o) for o in seq], "excl": list(excl)}
+    for seq in itertools.product(CRED_ALPHABET, repeat=2 if tier == "quick" else 3):
+        yield {"n": 2, "T": 3, "dur": 0, "bob": CRED_BOB, "ops": [list(o) for o in seq], "excl": list(excl)}
     for pre in BUSY_PREFIXES:
         for seq in itertools.product(BUSY_ALPHABET, repeat=3 if tier == "quick" else 5):
             yield {"n": 3, "T": 3, "dur": 0, "bob": [], "ops": [list(o) for o in pre] + [list(o) for o in seq],
@@ -780,7 +845,11 @@ def worker(ctx: Ctx):
         f"(none) and (2 logins of admin h0->h1), and of depth {plan[2][1]} after the prefixes (3 logins) and (a session "
         f"timed out while the client terminal was stopped, leaving a stale client handle); plus, with a second account "
         f"declared on h1, all sequences of depth {plan[0][1]} over a {len(ACC_ALPHABET)}-symbol accounts alphabet (re-add of "
-        f"existing enabled / disabled names, disable, logins and a local command with the re-add's password); plus, n=3, "
+        f"existing enabled / disabled names, disable, logins and a local command with the re-add's password); plus, with "
+        f"an account on h1 whose stored password ends in a space, all sequences of depth "
+        f"{2 if ctx.tier == 'quick' else 3} over a {len(CRED_ALPHABET)}-symbol credentials alphabet (remote and local logins "
+        f"whose user name or password is a near-miss of the stored one: leading / trailing space, tab, case, prefix, "
+        f"suffix, empty, stripped; password change to a value with a leading space; add-user of 'bob '); plus, n=3, "
         f"after two logins on h1 from two clients (both login orders), all sequences of depth "
         f"{3 if ctx.tier == 'quick' else 5} over a {len(BUSY_ALPHABET)}-symbol alphabet (command via either session, failing "
         f"command via the first, tick 1/2/3, logoff, login) -- one session kept busy while the other idles past the time-out"
